@@ -32,6 +32,14 @@ position is visited: set_scrollpos(k) for every k in [-total-1, total+1] (also b
 followed by every key / wheel event / resize / content change, and walks through the whole content with the down / up
 keys, the wheel, the page keys, and a chain of resizes at every position.
 
+Fixed structured content (family "fstruct"): FIXED-only wrapped widgets (rendered at size ()) that are WIDER than the
+view, so that Scrollable also trims the sides of a multi-shard canvas: a tall block beside a stack of short blocks (the
+stack on the right / on the left / on both sides of the tall block), BigText glyphs beside a stack, such Columns inside a
+fixed Pile between blocks of other widths; per-column display attributes.  View widths cut inside the first column, cut
+the other columns off completely, partly, not at all, and exceed the content (blank padding); every view height 1..5
+(quick) and every scroll position, reached by set_scrollpos (warm and cold), keys, wheel, and followed by resizes and
+content changes (the tall block shorter / longer than its neighbours).
+
 Reference side: the wrapped widget's full rendering is obtained from the wrapped widget itself (that *is*
 the definition in the statement); everything else (slice, padding, clamping, bar grammar, expected bar
 presence, expected movement) is computed here on plain lists of strings and ints.
@@ -94,6 +102,42 @@ class FixedBlock(urwid.Widget):
 
     def render(self, size, focus=False):
         return TextCanvas([ln.encode() for ln in self.lines], maxcol=len(self.lines[0]))
+
+
+class FixedOnly(urwid.Widget):
+    """FIXED-only view of a widget that can render at size () (urwid's Columns always also offers FLOW, and Scrollable
+    prefers FLOW; this makes Scrollable take the fixed rendering - wider than the view - of real Columns)."""
+
+    _sizing = frozenset([urwid.FIXED])
+    _selectable = False
+    ignore_focus = True
+
+    def __init__(self, w):
+        super().__init__()
+        self.w = w
+
+    def pack(self, size=(), focus=False):
+        return self.w.pack((), focus)
+
+    def render(self, size, focus=False):
+        return urwid.CompositeCanvas(self.w.render((), focus))
+
+
+class AsciiFont(urwid.Font):
+    """ASCII-only glyphs for BigText (a real FIXED-only widget; one canvas per glyph side by side)."""
+
+    name = "c20 ascii"
+    height = 5
+    data = (
+        """
+1111122222
+  /| /^^\\ 
+ / |    / 
+   |   /  
+   |  /   
+  _|_/____
+""",
+    )
 
 
 class Grabber(urwid.Widget):
@@ -178,8 +222,59 @@ def make_struct(name):
     return top
 
 
+def _block(ch, width, n):
+    return FixedBlock([(f"{i % 10}" + ch * width)[:width] for i in range(n)])
+
+
+def _stack(width, heights, chars="abcd", attrs=("x", None, "y", None)):
+    """FIXED-only Pile of short blocks (one canvas - one shard - per block)."""
+    items = []
+    for i, n in enumerate(heights):
+        b = _block(chars[i], width, n)
+        items.append(("pack", urwid.AttrMap(b, attrs[i]) if attrs[i] else b))
+    return urwid.Pile(items)
+
+
+FSTRUCTS = ("right", "left", "both", "big", "inpile")
+# full width and the view widths used: inside the first column / the first column exactly (everything to its right
+# cut off completely) / part of the next column / exactly the content / wider than the content
+FSTRUCT_WIDTHS = {
+    "right": (7, (2, 3, 5, 7, 9)),  # tall 3 | stack 4
+    "left": (8, (2, 4, 5, 6, 8, 9)),  # stack 4 | 1 | tall 3
+    "both": (11, (3, 4, 6, 7, 9, 11, 12)),  # stack 4 | tall 3 | stack 4
+    "big": (14, (3, 5, 7, 10, 12, 14, 15)),  # glyph 5 | glyph 5 | stack 4
+    "inpile": (9, (2, 3, 5, 7, 9, 10)),  # 9-wide header over (tall 3 | stack 4) over a 5-wide block
+}
+
+
+def make_fstruct(name):
+    """FIXED-only widgets wider than the view whose canvas has several columns with different vertical splits.
+    `_c20_tall` is the tall block (content changes rewrite it: shorter / longer than its neighbours)."""
+    tall = _block("R", 3, 9)
+    tallw = urwid.AttrMap(tall, "r")
+    if name == "right":  # the stack is cut off first
+        top = FixedOnly(urwid.Columns([("pack", tallw), ("pack", _stack(4, (2, 3, 4)))]))
+    elif name == "left":  # the tall canvas is cut off first: every shard keeps a canvas view of its own
+        top = FixedOnly(urwid.Columns([("pack", _stack(4, (2, 3, 4))), ("pack", tallw)], dividechars=1))
+    elif name == "both":
+        top = FixedOnly(urwid.Columns([("pack", _stack(4, (2, 3, 4))), ("pack", tallw), ("pack", _stack(4, (4, 1, 3, 1), "efgh", (None, "z", None, "x")))]))
+    elif name == "big":  # BigText: one canvas per glyph, 5 rows, beside a stack of 2+1+2 rows
+        big = urwid.BigText(("g", "12"), AsciiFont())
+        top = FixedOnly(urwid.Columns([("pack", big), ("pack", _stack(4, (2, 1, 2)))]))
+        tall = None
+    elif name == "inpile":  # a real FIXED-only Pile: blocks of other widths above and below the columns
+        cols = FixedOnly(urwid.Columns([("pack", tallw), ("pack", _stack(4, (2, 3, 4)))]))
+        top = urwid.Pile([("pack", _block("h", 9, 1)), ("pack", cols), ("pack", urwid.AttrMap(_block("t", 5, 2), "z"))])
+    else:
+        raise ValueError(name)
+    top._c20_tall = tall
+    return top
+
+
 def make_content(spec):
     kind = spec[0]
+    if kind == "fstruct":
+        return make_fstruct(spec[1])
     if kind == "struct":
         return make_struct(spec[1])
     if kind == "text":
@@ -214,6 +309,10 @@ def change_content(w, spec, how):
         w.set_lines([LETTERS[10 + i] * width for i in range(2 if how == "short" else 9)])
     elif kind == "grab":
         w.set_n(2 if how == "short" else 9)
+    elif kind == "fstruct":
+        if w._c20_tall is not None:
+            n = 2 if how == "short" else 12
+            w._c20_tall.set_lines([(f"{i % 10}" + "S" * 3)[:3] for i in range(n)])
     elif kind == "struct":
         w._c20_tall.set_text("\n".join(f"S{i}" for i in range(2 if how == "short" else 12)))
 
@@ -323,7 +422,7 @@ class World:
         self.bar = tuple(cfg["bar"]) if cfg.get("bar") else None
         self.focus = cfg.get("focus", True)
         self.content = make_content(self.spec)
-        self.fixed = self.spec[0] == "fixed"
+        self.fixed = self.spec[0] in ("fixed", "fstruct")
         self.s = Scrollable(self.content, force_forward_keypress=bool(cfg.get("ffk", False)))
         if self.bar:
             self.top = ScrollBar(self.s, thumb_char=THUMB, trough_char=TROUGH, side=self.bar[0], width=self.bar[1])
@@ -935,6 +1034,56 @@ def struct_histories(cfg):
     return out
 
 
+FSTRUCT_HEIGHTS = {"quick": (1, 2, 3, 4, 5), "thorough": (1, 2, 3, 4, 5, 6, 9, 13)}
+
+
+def fstruct_configs(tier):
+    """Fixed structured contents wider than the view: every width class of FSTRUCT_WIDTHS x every height; without a bar,
+    and with a bar at the widths where the bar leaves the Scrollable exactly / one more than the first column."""
+    quick = tier == "quick"
+    out = []
+    for name in FSTRUCTS:
+        _full, widths = FSTRUCT_WIDTHS[name]
+        for h in FSTRUCT_HEIGHTS["quick" if quick else "thorough"]:
+            for c in widths:
+                out.append({"content": ["fstruct", name], "size": [c, h], "bar": None, "ffk": False})
+            bars = [("right", 1), ("left", 2)] if not quick else [("right", 1)] if h % 2 else [("left", 2)]
+            for bar in bars:
+                for c in (widths[1] + bar[1], widths[2] + bar[1]) if quick else [x + bar[1] for x in widths]:
+                    out.append({"content": ["fstruct", name], "size": [c, h], "bar": list(bar), "ffk": False})
+    return out
+
+
+FSTRUCT_FOLLOW = [("resize", r) for r in ("h+", "h-", "c-", "c+")] + [("content", "short"), ("content", "long")]
+
+
+def fstruct_histories(cfg, tier):
+    """Every scroll position of the fixed content: by set_scrollpos (warm, cold), followed by every resize and content
+    change, and walked through by keys, wheel and page keys.  -> list of (history, mode)."""
+    if tier != "quick":
+        return struct_histories(cfg)
+    CanvasCache.clear()
+    w = World(cfg)
+    c, h = w.size
+    total = len(w.full(c)[0])
+    CanvasCache.clear()
+    n = max(0, total - h) + 1
+    out = [((), "each")]
+    for k in range(-total - 1, total + 2):
+        out.append(((("pos", k),), "each"))
+        if k >= -1:
+            out.append(((("pos", k),), "cold"))
+    for k in range(0, n + 1):
+        for ev in FSTRUCT_FOLLOW:
+            out.append(((("pos", k), ev), "each" if (k + len(ev[1])) % 2 else "end"))
+    out.append(((("key", "down"),) * n + (("key", "up"),) * n, "each"))
+    out.append(((("wheel", 5),) * n + (("wheel", 4),) * n, "each"))
+    out.append(((("key", "page down"),) * n + (("key", "page up"),) * n, "each"))
+    out.append(((("key", "end"),) + (("key", "up"),) * (n // 2) + (("resize", "c-"),) + (("key", "up"),) * n + (("key", "home"),), "each"))
+    out.append(((("key", "down"),) * (n // 2) + (("resize", "h+"),) + (("key", "down"),) * n + (("resize", "c+"),) + (("key", "up"),) * n, "each"))
+    return out
+
+
 def lb_configs(tier):
     out = []
     ns = (0, 3, 5, 8) if tier == "quick" else (0, 1, 3, 5, 8, 12)
@@ -985,6 +1134,13 @@ def _work(job):
             run_history(cfg, hist, "each", accs, (idx, "r", j))
         if cfg["bar"]:
             sweep(cfg, accs, idx)
+    elif kind == "fstruct":
+        for j, (hist, mode) in enumerate(fstruct_histories(cfg, tier)):
+            run_history(cfg, hist, mode, accs, (idx, "f", j))
+        for j, hist in enumerate(extra.get("random", ())):
+            run_history(cfg, hist, "each", accs, (idx, "r", j))
+        if cfg["bar"]:
+            sweep(cfg, accs, idx)
     elif kind == "scroll3":
         for j, hist in enumerate(itertools.product(ALPHA3["quick" if tier == "quick" else "thorough"], repeat=3)):
             run_history(cfg, hist, "each", accs, (idx, "3", j))
@@ -1022,6 +1178,12 @@ def run(tier="quick", seed=0):
         evs = alphabet(tier, cfg["bar"])
         rand = [tuple(r.choice(evs) for _ in range(r.randint(3, 6))) for _ in range(nrand)]
         jobs.append(("struct", 300000 + i, cfg, tier, {"random": rand}))
+    fcfgs = fstruct_configs(tier)
+    for i, cfg in enumerate(fcfgs):
+        nrand = 0 if quick else 40
+        evs = alphabet(tier, cfg["bar"])
+        rand = [tuple(r.choice(evs) for _ in range(r.randint(3, 6))) for _ in range(nrand)]
+        jobs.append(("fstruct", 400000 + i, cfg, tier, {"random": rand}))
     lcfgs = lb_configs(tier)
     for i, cfg in enumerate(lcfgs):
         nrand = 0 if quick else 100
@@ -1048,6 +1210,9 @@ def run(tier="quick", seed=0):
         f"views {STRUCT_SIZES['quick' if quick else 'thorough']}; no bar / right 1 / left 2{' (nest, sel: 6 of these combinations, lbadapt, nscroll: 4, lbox: 3)' if quick else ''}) x [set_scrollpos(k) for every k in -total-1..total+1 warm and cold, every position 0..total followed by each of "
         f"{len(STRUCT_FOLLOW)} events (keys, wheel, resizes, content changes) and by a chain of 5 resizes, full walks by down/up, wheel, page keys, end+up, walks interrupted by resizes"
         f"{'' if quick else ', 60 random histories of length 3-6'}]; "
+        f"{len(fcfgs)} fixed structured-content configs (FIXED-only widgets wider than the view, several columns with different vertical splits: {', '.join(FSTRUCTS)}; "
+        f"view widths inside the first column / the first column exactly / part of the next / the whole content / wider, heights {FSTRUCT_HEIGHTS['quick' if quick else 'thorough']}; no bar{' / right 1 or left 2 at two widths' if quick else ' / right 1 / left 2'}) x "
+        f"{'[set_scrollpos(k) for every k in -total-1..total+1 warm and (k >= -1) cold, every position followed by each of 4 resizes and 2 content changes, full walks by down/up, wheel, page keys, walks interrupted by resizes]' if quick else '[the structured-content histories + 40 random histories of length 3-6]'}; "
         f"{len(lcfgs)} ListBox-under-ScrollBar configs (<= {8 if quick else 12} items of 1-2 rows) x histories of length <= 2 over {len(LB_EVENTS)} events"
         f"{'' if quick else ' + 100 random histories of length 3-5'}; view width > bar width"
     )
